@@ -50,6 +50,7 @@ DELIMS = {
     'json': '{}[],:"', 'json5': '{}[],:"\'', 'yaml': ':-[]{}\n &*?"', 'xml': '<>/="', 'html': '<>/="', 'plist': '<>/',
 }
 VALID = {}
+THOROUGH = [False]
 
 
 def seeds(fmt):
@@ -106,9 +107,18 @@ def corruptions(fmt, seed: str):
         import re
         for m in re.finditer(r'</([A-Za-z0-9]+)>', seed):
             yield f'rename-close-tag@{m.start()}', (seed[:m.start(1)] + 'zz' + seed[m.end(1):]).encode('utf-8')
+    if THOROUGH[0]:
+        # a stray delimiter inserted at every offset; every byte replaced by an invalid UTF-8 byte / NUL
+        for j in range(len(seed) + 1):
+            for ch in DELIMS[fmt]:
+                yield f'insert {ch!r}@{j}', (seed[:j] + ch + seed[j:]).encode('utf-8')
+        for i in range(len(raw)):
+            yield f'byte-0xff@{i}', raw[:i] + b'\xff' + raw[i + 1:]
+            yield f'byte-nul@{i}', raw[:i] + b'\x00' + raw[i + 1:]
 
 
 def all_faults(tier):
+    THOROUGH[0] = tier != 'quick'
     idx = 0
     for fmt in ('json', 'json5', 'yaml', 'xml', 'html', 'plist'):
         sds = seeds(fmt)
@@ -203,5 +213,6 @@ def run(ctx):
 
 
 def replay(case):
+    THOROUGH[0] = True
     _, _, fail, _ = evaluate(case['fmt'], case['seed'], case['kind'], bytes.fromhex(case['data_hex']))
     return fail
